@@ -42,6 +42,9 @@ pub struct CommitOptions { pub message: Option<String>, pub time: Option<i64> }
 
 /// abstract document version: everything TransactionArgs caches (actor index, seq, start op, deps) is a function of it
 #[verifier::external_body] pub struct Version { _p: () }
+#[verifier::external_body] pub struct ExId { _p: () }
+#[verifier::external_body] pub struct HydrateValue { _p: () }
+pub mod hydrate { pub use super::HydrateValue as Value; }
 
 #[derive(Clone)]
 pub struct Automerge { pub ops: OpSet, pub change_graph: ChangeGraph }
@@ -57,6 +60,15 @@ impl Automerge {
     pub uninterp spec fn version(&self) -> Version;
     pub uninterp spec fn spec_heads(&self) -> Seq<ChangeHash>;
 
+    /// `clock_at`: None exactly when the heads are the current heads (an unscoped read), else the clock of those heads
+    pub uninterp spec fn spec_clock_at(&self, h: Seq<ChangeHash>) -> Option<Clock>;
+    #[verifier::external_body]
+    pub fn clock_at(&self, heads: &[ChangeHash]) -> (r: Option<Clock>) ensures r == self.spec_clock_at(heads@) { unimplemented!() }
+    /// what a scoped read of an object returns (abstract function of document, object and clock)
+    pub uninterp spec fn spec_hydrate(&self, obj: ExId, clock: Option<Clock>) -> Result<HydrateValue, AutomergeError>;
+    #[verifier::external_body]
+    pub fn hydrate_obj(&self, obj: &ExId, clock: Option<Clock>) -> (r: Result<HydrateValue, AutomergeError>)
+        ensures r == self.spec_hydrate(*obj, clock) { unimplemented!() }
     #[verifier::external_body]
     pub fn ops(&self) -> (r: &OpSet) ensures *r == self.ops { unimplemented!() }
     #[verifier::external_body]
@@ -117,7 +129,14 @@ impl Automerge {
     #[verifier::external_body]
     pub fn clock_range(&self, before: &[ChangeHash], after: &[ChangeHash]) -> (r: ClockRange) { unimplemented!() }
 }
+/// a vector clock (the scope of a read); opaque
+#[verifier::external_body] pub struct Clock { _p: () }
+impl Clone for Clock { #[verifier::external_body] fn clone(&self) -> (r: Self) ensures r == *self { unimplemented!() } }
+/// the clock of a set of heads (abstract function of the change graph)
+pub uninterp spec fn graph_clock(g: ChangeGraph, h: Seq<ChangeHash>) -> Clock;
 impl ChangeGraph {
+    #[verifier::external_body]
+    pub fn clock_at(&self, heads: &[ChangeHash]) -> (r: Clock) ensures r == graph_clock(*self, heads@) { unimplemented!() }
     #[verifier::external_body]
     pub fn heads_are_current(&self, heads: &[ChangeHash]) -> (r: bool) { unimplemented!() }
     #[verifier::external_body]
@@ -129,6 +148,10 @@ impl TransactionInner {
     pub uninterp spec fn scope(&self) -> Option<Seq<ChangeHash>>;
     /// what `commit` returns: the hash of the new change, or None when the transaction made no operations
     pub uninterp spec fn spec_commit(&self, doc: Automerge) -> Option<ChangeHash>;
+    /// the clock an isolated transaction reads under (transaction/inner.rs `scope`)
+    pub uninterp spec fn scope_clock(&self) -> Option<Clock>;
+    #[verifier::external_body]
+    pub fn get_scope(&self) -> (r: &Option<Clock>) ensures *r == self.scope_clock() { unimplemented!() }
 
     #[verifier::external_body]
     pub fn new(args: TransactionArgs) -> (r: TransactionInner)
@@ -375,6 +398,33 @@ impl AutoCommit {
         ensures final(self).wf(), final(self).transaction is None,
             final(self).isolation is Some <==> old(self).isolation is Some,
             old(self).transaction is None ==> (final(self).isolation == old(self).isolation && final(self).doc == old(self).doc),
+//@ end
+
+    /// C29: the clock every read of this AutoCommit is scoped to -- an explicit `heads` argument wins (and with a transaction
+    /// in flight the read is ALWAYS clock-scoped); otherwise, while isolated, the open transaction's scope or the isolation
+    /// heads; otherwise unscoped
+    pub open spec fn scope_of(&self, heads: Option<&[ChangeHash]>) -> Option<Clock> {
+        match heads {
+            Some(h) => if self.transaction is None { self.doc.spec_clock_at(h@) } else { Some(graph_clock(self.doc.change_graph, h@)) },
+            None => if self.isolation is Some {
+                if self.transaction is Some { (self.transaction->0).1.scope_clock() } else { self.doc.spec_clock_at((self.isolation->0)@) }
+            } else { None },
+        }
+    }
+//@ fn rust/automerge/src/autocommit.rs | impl AutoCommit | get_scope
+//@   ret r
+//@   spec
+        ensures r == self.scope_of(heads),
+//@ end
+
+//@ fn rust/automerge/src/autocommit.rs | impl ReadDoc for AutoCommit | hydrate
+//@   ret r
+//@   subst /<O: AsRef<ExId>>/ => <>
+//@   subst /obj: O,/ => obj: &ExId,
+//@   subst /obj\.as_ref\(\)/ => obj
+//@   spec
+        // C29 (D30 lived here): hydrate is a read like any other -- it goes through the scope
+        ensures r == self.doc.spec_hydrate(*obj, self.scope_of(heads)),
 //@ end
 
 //@ fn rust/automerge/src/autocommit.rs | impl AutoCommit | isolate
